@@ -315,6 +315,21 @@ def _kpcovr_pre_args(d):
 ENTRIES["decomposition.KernelPCovR(precomputed kernel, W)"] = (_kpcovr_pre_args, _kpcovr_pre)
 
 
+def _kpcovr_pre_center(ctx, K, Y, Kt):
+    p = KernelPCovR(n_components=2, kernel="precomputed", center=True)
+    checked_fit(ctx, p, K, Y)
+    xf = np.array(p.X_fit_, copy=True)
+    p.transform(Kt)
+    p.predict(Kt)
+    p.score(K, Y)
+    p.score(K, Y)
+    ctx.close("fitted-state-stable", p.X_fit_, xf, 0.0, "X_fit_ changed by transform / predict / score")
+
+
+ENTRIES["decomposition.KernelPCovR(precomputed kernel, center=True)"] = (
+    lambda d: {"K": d["X"] @ d["X"].T, "Y": d["Y"], "Kt": d["rng"].normal(size=(4, d["m"])) @ d["X"].T}, _kpcovr_pre_center)
+
+
 def _kpcovr_fitted(ctx, X, Y):
     reg = KernelRidge(alpha=0.1, kernel="rbf", gamma=0.3).fit(X, Y)
     c0 = reg.dual_coef_.copy()
